@@ -369,6 +369,14 @@ func BlockTxs(home string) (map[int64][]string, int64, int64, error) {
 	return out, bs.Base(), bs.Height(), nil
 }
 
+// Extra runs one more incarnation on the home of a finished plan (used to tell a
+// node that is really stuck from one that was merely slow).
+func (r *Runner) Extra(res *Result, st Step) IncResult {
+	ir := r.runInc(res.Home, len(res.Incs)+2, st)
+	res.Incs = append(res.Incs, ir)
+	return ir
+}
+
 // WALEndHeights lists the end-of-height markers present in the WAL files of a home.
 func WALEndHeights(home string) map[int64]bool {
 	out := map[int64]bool{}
